@@ -228,6 +228,23 @@ func derivesFromGuard(v ssa.Value, g *types.Var, depth int) bool {
 	}
 	if f, _ := loadedField(v); f == g {
 		return true
+	} else if f != nil && theCtx != nil && depth < 3 {
+		// a field that only ever holds guard-derived values (or nil): a captured variable turned into a field
+		n, okAll := 0, true
+		for _, fn := range theCtx.Funcs {
+			for _, st := range storesToField(theCtx, fn, f) {
+				n++
+				if k, isK := st.Val.(*ssa.Const); isK && k.IsNil() {
+					continue
+				}
+				if !derivesFromGuard(st.Val, g, depth+1) {
+					okAll = false
+				}
+			}
+		}
+		if n > 0 && okAll {
+			return true
+		}
 	}
 	switch x := v.(type) {
 	case *ssa.Lookup:
